@@ -167,6 +167,7 @@ theorem T18_partial_transpose_order {β : Type} (n : Nat) (P P' : List Nat)
 
 /-! ## Schmidt reshape -/
 
+omit [CommSemiring α] in
 /-- the reshape/transposes of `schmidt_decomposition` are a bijection between amplitudes and
 matrix entries: entry `(idx P x, idx kept x)` is the amplitude of `x`, and the label of entry
 `(a, b)` has indices `(a, b)` again — the partition in the order the caller listed it. -/
